@@ -123,6 +123,9 @@ def run(ctx):
             esis = [K, K + 1, (1 << 24) - 1, 1 << 23] + [rnd.randrange(K, 1 << 24) for _ in range(3)]
             cases.append((K, T, esis))
     packet_differential(ctx, native, cases)
+    # rows above the certificate bound: concrete system + repair-packet check of the real encoder (every 2nd row up to 1200, all in thorough)
+    big = [r[0] for r in rfc.TABLE2 if bound < r[0] <= (1200 if not thorough else 3000)]
+    c06.concrete_large_rows(ctx, native, big if thorough else big[::2], "c04", thorough)
     kt.join()
 
 
